@@ -8,17 +8,46 @@ import numpy as np
 import common as C
 import hydro_common as HC
 
-LEAN_MODULE = "WallGoVerif.Props.C05"
-LEMMA_MODULES = ["WallGoVerif.Lemmas.Hydro"]
+LEAN_MODULES = ["WallGoVerif.Props.C05", "WallGoVerif.Props.C05L"]
+LEMMA_MODULES = ["WallGoVerif.Lemmas.Hydro", "WallGoVerif.Lemmas.LTE", "WallGoVerif.Model.LTE"]
 GEN_MODULES = ["Helpers", "Hydro"]
 VALIDATION_POINTS = (100, 2000)
 VALIDATE_ONLY = {"matchingLTE", "deflagPostLTE", "vpvmAndvpovm", "inverseMappingT", "mappingT", "gammaSq", "boostVelocity"}
 RULE = ("obligations = Lean theorems of Props.C05 (deflagPostLTE returns T+^2 gamma+^2 = T-^2 gamma-^2; the 2x2 LTE residual has "
         "entropy conservation built in and its zero set = conservation laws; decision model of findvwLTE: interior result => final "
         "bracketed branch, sentinel 1 => one of three named conditions, sentinel 0 => mismatch negative at vMin) + translator "
-        "validation + real findvwLTE runs judged on the real matching; distinct = (EOS, outcome class)")
+        "validation + Props.C05L (executable Model.LTE of the same decision logic incl. shock(vw) = v+ vw - cs+^2(T+), window top, sentinels, final "
+        "bracket; linked to the T05.2 model) with exact correspondence against the REAL findvwLTE on scripted physics and bisection stubs "
+        "+ real findvwLTE runs judged on the real matching; distinct = (EOS, outcome class) or (scripted style, outcome)")
 ASSUMPTIONS = ["'mismatch keeps one sign over the whole window' is sampled on a velocity grid (the code only tests the end point): partial",
                "parameter points closer than 2% in velocity to a solution-type threshold are excluded as the property's margin"]
+
+
+def corr(rep: C.Report, tier: str):
+    """Model.LTE.findvwLTE (Float) vs the REAL Hydrodynamics.findvwLTE with scripted physics (matchDeflagOrHyb, solveHydroShock, csqHighT linear
+    in their arguments, a convergence flag that fails above a threshold velocity) and a 50-step bisection for both root_scalar calls (raising
+    ValueError without a sign change): same sentinel or same final bracket and root, bit for bit."""
+    r = C.rng("C05corr")
+    lines, expect, kinds = [], [], []
+    for _ in range(500 if tier == "quick" else 6000):
+        kind, p = HC.lte_params(r)
+        try:
+            e, sq = HC.scripted_lte(*p)
+        except Exception as ex:  # noqa: BLE001
+            e, sq = f"raised {type(ex).__name__}: {str(ex)[:80]}", (p[11] + p[12] * p[0]) ** 0.5
+        lines.append("lte " + " ".join(str(C.f2b(float(x))) for x in (p[0], p[1], p[2], sq) + tuple(p[3:13])))
+        expect.append(e)
+        kinds.append(kind)
+    outs = C.lean_run("LTEF", lines)
+    bad = []
+    for ln, k, e, o_ in zip(lines, kinds, expect, outs):
+        rep.case(key=("findvwLTE-logic", k, o_.split()[0]))
+        rep.count(f"findvwLTE logic {k.split('/')[0]} {o_.split()[0]}")
+        if e != o_:
+            bad.append({"kind": k, "params(Tn,vMin,vJ,sqrtCs,p0,p1,t0,t1,fa,s0,s1,s2,q0,q1)": [C.b2f(int(t)) for t in ln.split()[1:]], "real": e, "model": o_})
+    rep.obligation("correspondence Model.LTE.findvwLTE = real Hydrodynamics.findvwLTE on scripted physics/solver stubs (sentinels, window top, "
+                   "final bracket, root)", "correspondence", not bad and len(outs) == len(lines), f"{len(lines)} cases; {str(bad[:1])[:400]}")
+    rep.extra["lte_logic_disagreements"] = bad[:3]
 
 
 def _manager_scan(rep: C.Report, tier: str):
